@@ -50,13 +50,11 @@ import (
 	"github.com/dfklegend/cell2/node/builtin/msgs"
 	"github.com/dfklegend/cell2/node/client/impls"
 	"github.com/dfklegend/cell2/node/client/impls/pomelo"
-	pclient "github.com/dfklegend/cell2/pomelonet/client"
 	cs "github.com/dfklegend/cell2/node/client/session"
 	"github.com/dfklegend/cell2/pomelonet/common/conn/codec"
 	"github.com/dfklegend/cell2/pomelonet/common/conn/message"
 	"github.com/dfklegend/cell2/pomelonet/common/conn/packet"
 	"github.com/dfklegend/cell2/pomelonet/constants"
-	"github.com/dfklegend/cell2/pomelonet/server/acceptor"
 	"github.com/dfklegend/cell2/pomelonet/server/session"
 	"github.com/dfklegend/cell2/utils/compression"
 	"github.com/dfklegend/cell2/utils/logger"
@@ -467,7 +465,8 @@ func (c *fragConn) SetDeadline(t time.Time) error      { return nil }
 func (c *fragConn) SetReadDeadline(t time.Time) error  { return nil }
 func (c *fragConn) SetWriteDeadline(t time.Time) error { return nil }
 
-// readStream calls GetNextMessage until it returns no message
+// readStream calls GetNextMessage until it returns no message; the PlayerConn is the one the real accept loop of
+// acceptor.TCPAcceptor builds around the fragConn (rig_test.go; no unexported identifier of the package is named)
 func readStream(frags [][]byte) (msgs [][]byte, end string) {
 	fc := &fragConn{}
 	total := 0
@@ -475,7 +474,7 @@ func readStream(frags [][]byte) (msgs [][]byte, end string) {
 		fc.frags = append(fc.frags, exact(f))
 		total += len(f)
 	}
-	pc := acceptor.VerifTCPPlayerConn(fc)
+	pc := getAccRig().playerConn(fc)
 	for i := 0; i <= total+1; i++ {
 		m, err := pc.GetNextMessage()
 		if err == constants.ErrConnectionClosed {
@@ -534,6 +533,18 @@ func zpayload(n int) []byte {
 }
 
 // exec interprets one op line against the real code.
+// whiteboxFor: can the op be run?  srt/gnm/mchain need the server-side rig (the real PlayerConn of the TCP acceptor
+// around the harness's fragConn), crl the client-side rig (the real read loop of pomelonet/client on a stand-in socket)
+func whiteboxFor(op string) bool {
+	switch {
+	case strings.HasPrefix(op, "srt "), strings.HasPrefix(op, "gnm "), strings.HasPrefix(op, "mchain "):
+		return getAccRig().mode != "unavailable"
+	case strings.HasPrefix(op, "crl "):
+		return getCliRig().mode != "unavailable"
+	}
+	return true
+}
+
 func exec(op string) string {
 	ws := hx.Words(op)
 	if len(ws) == 0 {
@@ -808,9 +819,11 @@ func exec(op string) string {
 			return "ok " + hx.Hex(b1) + " | ok " + hx.Hex(b2) + " | " + doDecode(b2)
 		})
 	case "crl":
-		// the decoder's second caller: pomelonet/client.readPackets accumulates socket reads in ONE bytes.Buffer,
+		// the decoder's second caller: the read loop of pomelonet/client accumulates socket reads in ONE bytes.Buffer,
 		// hands buf.Bytes() to Decode and drops what was consumed; the packets of earlier rounds are still queued
-		// (packetChan) while later reads are written into the same buffer
+		// while later reads are written into the same buffer.  The REAL loop runs (client.New + ConnectTo) on the
+		// harness's gated stand-in socket and publishes into the harness's queue: see rig_test.go (no unexported
+		// identifier of the client package is named)
 		return hx.Guard(func() string {
 			var all []byte
 			for _, w := range ws[1:] {
@@ -835,21 +848,14 @@ func exec(op string) string {
 					return "bad-op"
 				}
 			}
-			rounds := len(fc.frags)
-			read := pclient.VerifReadLoop(fc)
 			var queued []*packet.Packet
 			var first strings.Builder
 			first.WriteString("ok")
-			for i := 0; i < rounds; i++ {
-				ps, err := read()
-				if err != nil {
-					first.WriteString(" readerr")
-					break
-				}
-				for _, p := range ps {
-					fmt.Fprintf(&first, " p=%d:%s", p.Type, hx.Hex(p.Data))
-				}
-				queued = append(queued, ps...)
+			if getCliRig().readLoop(fc.frags, func(p *packet.Packet) {
+				fmt.Fprintf(&first, " p=%d:%s", p.Type, hx.Hex(p.Data))
+				queued = append(queued, p)
+			}) {
+				first.WriteString(" readerr")
 			}
 			return first.String() + " | " + showPackets(queued)
 		})
@@ -1670,7 +1676,13 @@ func TestRun(t *testing.T) {
 	h := hx.Open()
 	defer h.Close()
 	g := &gen{t: h, hasR: map[string]bool{}, hasC: map[int]bool{}}
+	curT = t
 	run := func(op string) {
+		if !whiteboxFor(op) {
+			// the rig behind this op could not be assembled on this tree: the op is not run (and not compared)
+			h.Count("whitebox=unavailable")
+			return
+		}
 		obs := exec(op)
 		h.Emit(op, obs)
 		g.note(op, obs)
@@ -1912,6 +1924,8 @@ func TestRun(t *testing.T) {
 		}
 	}
 	run("dictget")
+	h.Stats["whitebox.acceptor="+getAccRig().mode] = 1
+	h.Stats["whitebox.client="+getCliRig().mode] = 1
 }
 
 // TestExhaustive3 (thorough tier): every byte string of length 3 through
